@@ -147,6 +147,22 @@ HSetHeader(send) ==
   /\ UNCHANGED <<ch, chClosed, spc, cpc, tlrs, outcome, gotResponse, hdrOut, trlOut, msgOut,
                  decoded, readAfterReturn, ntrl, ncancel>>
 
+\* the same with EMPTY metadata (SendHeader(nil): "flush the headers"): nothing
+\* is added, but SendHeader still marks the headers as sent
+HSetHeaderE(send) ==
+  /\ spc = "handler" /\ bud > 0 /\ decoded \in {"no", "done"}
+  /\ bud' = bud - 1
+  \* (grpc.SetHeader returns nil for empty metadata without looking at the stream)
+  /\ LET ok == ~hdrsSent \/ ~send IN
+       /\ hdrsSent' = (hdrsSent \/ (ok /\ send))
+       /\ IF send
+            THEN Ev_HSendHeaderAtomic(0, ok) /\ Viol(Chk_HSendHeaderAtomic(0, ok))
+                 /\ Emit("HSendHeaderRet", 0, IF ok THEN RNil ELSE RMisuse, 0, <<>>, <<>>)
+            ELSE Ev_HSetHeaderRet(0, ok) /\ Viol(Chk_HSetHeaderRet(0, ok))
+                 /\ Emit("HSetHeaderRet", 0, IF ok THEN RNil ELSE RMisuse, 0, <<>>, <<>>)
+  /\ UNCHANGED <<ch, chClosed, spc, cpc, hdrs, tlrs, outcome, gotResponse, hdrOut, trlOut, msgOut,
+                 decoded, readAfterReturn, nhdr, ntrl, ncancel>>
+
 HSetTrailer ==
   /\ spc = "handler" /\ bud > 0 /\ ntrl < MaxTrl /\ decoded \in {"no", "done"}
   /\ bud' = bud - 1 /\ ntrl' = ntrl + 1
@@ -250,7 +266,7 @@ Terminated ==
   /\ UNCHANGED allvars
 
 Next ==
-  \/ CStart \/ SrvStart \/ HDecodeCall \/ HDecodeCopy \/ HDecodeRet \/ HSetHeader(TRUE) \/ HSetHeader(FALSE) \/ HSetTrailer
+  \/ CStart \/ SrvStart \/ HDecodeCall \/ HDecodeCopy \/ HDecodeRet \/ HSetHeader(TRUE) \/ HSetHeader(FALSE) \/ HSetHeaderE(TRUE) \/ HSetHeaderE(FALSE) \/ HSetTrailer
   \/ \E o \in Outcomes : HReturnDo(o)
   \/ SrvHandled \/ SrvWrite \/ SrvClose
   \/ CliTake \/ CliClosed \/ CliCtxDone
